@@ -279,6 +279,33 @@ func pathCorpus(w *gal.Writer) {
 			mut{Type: "directory", Path: "/srv", Perm: 0o700, UID: 3, GID: 3, Recursive: true},
 			mut{Type: "permissions", Path: "/srv/data", Perm: 0o711, UID: 4, GID: 4},
 			mut{Type: "hardlink", Path: "/srv/g", Source: "/srv/data/f", Perm: 0o600, UID: 5, GID: 5})
+		// order: a later mutation overrides an earlier one on the same node (class of seeded C13-5)
+		p("permissions, then a directory mutation of the same path", treeOps,
+			mut{Type: "permissions", Path: "/usr/lib/app", Perm: 0o700, UID: 5, GID: 5}, mut{Type: "directory", Path: "/usr/lib/app", Perm: 0o755})
+		p("permissions on a file, then a recursive directory above it", treeOps,
+			mut{Type: "permissions", Path: "/usr/lib/app/sub/deep/f", Perm: 0o600, UID: 9, GID: 9}, mut{Type: "directory", Path: "/usr/lib/app", Perm: 0o750, UID: 1, GID: 2, Recursive: true},
+			mut{Type: "permissions", Path: "/usr/lib/app/dangling2", Perm: 0o600})
+		p("permissions on a path, then a hardlink to it under another name", treeOps,
+			mut{Type: "permissions", Path: "/etc/motd", Perm: 0o400, UID: 9, GID: 9}, mut{Type: "hardlink", Path: "/srv/motd", Source: "/etc/motd", Perm: 0o644, UID: 1, GID: 1})
+		p("permissions before and after an empty-file of the same path", treeOps,
+			mut{Type: "permissions", Path: "/etc/motd", Perm: 0o400, UID: 9, GID: 9}, mut{Type: "empty-file", Path: "/etc/motd", Perm: 0o644, UID: 1, GID: 1},
+			mut{Type: "permissions", Path: "/etc/motd.hard", Perm: 0o440, UID: 2, GID: 2})
+		p("two permissions entries of one path around a symlink to it", treeOps,
+			mut{Type: "permissions", Path: "/var/empty", Perm: 0o700, UID: 3, GID: 3}, mut{Type: "symlink", Path: "/srv/e", Source: "/var/empty", Perm: 0o755, UID: 4, GID: 4},
+			mut{Type: "permissions", Path: "/var/empty", Perm: 0o711, UID: 5, GID: 5})
+		// the recursive walk chmods THROUGH link entries: their targets, outside the directory, change too
+		p("recursive walk over link entries pointing out of the directory", append(append([]setupOp{}, treeOps...),
+			setupOp{Op: "mkdirall", Path: "srv/walk/in", Perm: 0o755}, setupOp{Op: "write", Path: "srv/walk/in/f", Arg: "f", Perm: 0o644},
+			setupOp{Op: "symlink", Path: "srv/walk/out-file", Arg: "/etc/motd"}, setupOp{Op: "symlink", Path: "srv/walk/in/out-dir", Arg: "../../../var/empty"}),
+			mut{Type: "directory", Path: "/srv/walk", Perm: 0o700, UID: 8, GID: 9, Recursive: true})
+		// a trailing slash on an empty-file path nests the file (finding C13-F6)
+		p("empty-file with a trailing slash (C13-F6)", nil, mut{Type: "empty-file", Path: "/x/y/", Perm: 0o640, UID: 5, GID: 6})
+		p("empty-file with a trailing slash over an existing file (C13-F6)", treeOps, mut{Type: "empty-file", Path: "/etc/motd/", Perm: 0o640, UID: 5, GID: 6})
+		p("directory with a trailing slash is fine", nil, mut{Type: "directory", Path: "/x/y/", Perm: 0o750, UID: 5, GID: 6})
+		p("symlink and hardlink with a trailing slash", treeOps, mut{Type: "symlink", Path: "/srv/l/", Source: "/etc/motd", Perm: 0o644}, mut{Type: "hardlink", Path: "/srv/h/", Source: "/etc/motd", Perm: 0o644})
+		// empty-file over a package-backed file is covered by the e2e stage (tarfs); through a chain of links here
+		p("empty-file through a chain of two links", append(append([]setupOp{}, treeOps...), setupOp{Op: "symlink", Path: "etc/m1", Arg: "m2"}, setupOp{Op: "symlink", Path: "etc/m2", Arg: "/etc/motd"}),
+			mut{Type: "empty-file", Path: "/etc/m1", Perm: 0o600, UID: 5, GID: 5})
 		p("max ids", nil, mut{Type: "directory", Path: "/big", Perm: 0o755, UID: 4294967295, GID: 4294967295})
 		p("empty sequence", treeOps)
 	}
